@@ -74,10 +74,14 @@ pub fn eval_plan<R: Rh>(exp: &Value) -> Result<Vec<u64>, String> {
 /// representation where the field has one (the specification only knows the value)
 fn elem<R: Rh>(v: u64, sel: usize) -> R::F {
     if sel % 2 == 1 {
-        R::alt(v, sel / 2)
-    } else {
-        R::new(v)
+        // (a recipe whose field arithmetic does not produce the value v would be a field defect — C10 —
+        // not a hashing one: fall back to the plain constructor so that it cannot masquerade as one)
+        let e = R::alt(v, sel / 2);
+        if e.as_int() == v {
+            return e;
+        }
     }
+    R::new(v)
 }
 
 fn digest_of<R: Rh>(d: &Value, sel: usize) -> Result<<R::H as Hasher>::Digest, String> {
